@@ -122,3 +122,178 @@ Theorem handlers_fuel_mono : forall k k' e st ex cs call r st', k <= k' ->
 Proof. intros k; exact (proj2 (proj2 (fuel_mono_all k))). Qed.
 
 End Mono.
+
+(* the outcome of a program does not depend on the fuel, once it is enough *)
+Theorem run_program_fuel_mono : forall k k' p args, k <= k' ->
+  run_program k p args <> OFuel -> run_program k' p args = run_program k p args.
+Proof.
+  intros k k' p args Hle. unfold run_program.
+  destruct (fold_left _ args _) as [argcells st1].
+  destruct (lookup _ _) as [cm|]; auto.
+  destruct (get_cell st1 cm) as [[ | |fd cenv| |]|]; auto.
+  destruct (bind_params _ _) as [penv|]; auto.
+  destruct (eval_items _ k penv st1 (fd_body fd) None) as [r s] eqn:E.
+  destruct r.
+  - intros _. rewrite (eval_items_fuel_mono _ _ _ _ _ _ _ _ _ Hle E) by discriminate. reflexivity.
+  - rewrite (eval_items_fuel_mono _ _ _ _ _ _ _ _ _ Hle E) by discriminate.
+    destruct (handlers _ k penv s e _ _) as [r2 s2] eqn:E2.
+    destruct r2; intros Hne;
+      try (rewrite (handlers_fuel_mono _ _ _ _ _ _ _ _ _ _ Hle E2) by discriminate; reflexivity).
+    congruence.
+  - congruence.
+  - intros _. rewrite (eval_items_fuel_mono _ _ _ _ _ _ _ _ _ Hle E) by discriminate. reflexivity.
+Qed.
+
+(* two sufficient fuels give the same outcome *)
+Corollary run_program_deterministic_in_fuel : forall k1 k2 p args,
+  run_program k1 p args <> OFuel -> run_program k2 p args <> OFuel ->
+  run_program k1 p args = run_program k2 p args.
+Proof.
+  intros k1 k2 p args H1 H2. destruct (Nat.le_ge_cases k1 k2) as [H|H].
+  - symmetry. apply run_program_fuel_mono; auto.
+  - apply run_program_fuel_mono; auto.
+Qed.
+
+(* fuel-free evaluation judgement *)
+Definition evaluates (genv e : env) (st : state) (x : expr) (r : res) (st' : state) : Prop :=
+  exists k, eval genv k e st x = (r, st') /\ r <> RFuel.
+
+Lemma evaluates_functional : forall genv e st x r1 s1 r2 s2,
+  evaluates genv e st x r1 s1 -> evaluates genv e st x r2 s2 -> r1 = r2 /\ s1 = s2.
+Proof.
+  intros genv e st x r1 s1 r2 s2 [k1 [H1 N1]] [k2 [H2 N2]].
+  destruct (Nat.le_ge_cases k1 k2) as [H|H].
+  - rewrite (eval_fuel_mono _ _ _ _ _ _ _ _ H H1 N1) in H2. inversion H2; auto.
+  - rewrite (eval_fuel_mono _ _ _ _ _ _ _ _ H H2 N2) in H1. inversion H1; auto.
+Qed.
+
+(* ---- store monotonicity ----------------------------------------------------------- *)
+
+Definition st_le (st st' : state) : Prop :=
+  length (cells st) <= length (cells st') /\
+  (exists l, arrs st' = arrs st ++ l) /\
+  (exists l, recs st' = recs st ++ l) /\
+  (exists l, out st' = l ++ out st).
+
+Lemma st_le_refl : forall st, st_le st st.
+Proof. intros; repeat split; auto; exists []; auto using app_nil_r. Qed.
+
+Lemma st_le_trans : forall a b c, st_le a b -> st_le b c -> st_le a c.
+Proof.
+  intros a b c [H1 [[l2 H2] [[l3 H3] [l4 H4]]]] [G1 [[m2 G2] [[m3 G3] [m4 G4]]]].
+  repeat split.
+  - lia.
+  - exists (l2 ++ m2). rewrite G2, H2, app_assoc. reflexivity.
+  - exists (l3 ++ m3). rewrite G3, H3, app_assoc. reflexivity.
+  - exists (m4 ++ l4). rewrite G4, H4, app_assoc. reflexivity.
+Qed.
+
+Lemma st_le_fresh : forall st v r st', fresh st v = (r, st') ->
+  st_le st st' /\ r = ROk (length (cells st)) /\ cells st' = cells st ++ [v] /\
+  arrs st' = arrs st /\ recs st' = recs st /\ out st' = out st.
+Proof.
+  unfold fresh, alloc. intros st v r st' H. inversion H; subst; clear H. simpl.
+  repeat split; auto; try (exists []; auto using app_nil_r).
+  rewrite app_length; simpl; lia.
+Qed.
+
+Lemma st_le_set_cell : forall st c v, st_le st (set_cell st c v).
+Proof.
+  intros; unfold set_cell; repeat split; simpl; try (exists []; auto using app_nil_r).
+  rewrite list_upd_length; auto.
+Qed.
+
+Lemma st_le_new_arr : forall st cs, st_le st (snd (new_arr st cs)).
+Proof. intros; repeat split; simpl; auto; try (exists []; auto using app_nil_r). eexists; eauto. Qed.
+
+Lemma st_le_new_rec : forall st cs, st_le st (snd (new_rec st cs)).
+Proof. intros; repeat split; simpl; auto; try (exists []; auto using app_nil_r). eexists; eauto. Qed.
+
+Lemma st_le_print : forall st z, st_le st (print_num st z).
+Proof. intros; repeat split; simpl; auto; try (exists []; auto using app_nil_r). exists [z]; auto. Qed.
+
+Lemma st_le_alloc : forall st v, st_le st (snd (alloc st v)).
+Proof.
+  intros; repeat split; simpl; auto; try (exists []; auto using app_nil_r).
+  rewrite app_length; simpl; lia.
+Qed.
+
+Section Grow.
+Variable genv : env.
+
+Definition grow_eval (k : nat) := forall e st x r st', eval genv k e st x = (r, st') -> st_le st st'.
+Definition grow_items (k : nat) := forall e st l last r st',
+  eval_items genv k e st l last = (r, st') -> st_le st st'.
+Definition grow_handlers (k : nat) := forall e st ex cs call r st',
+  handlers genv k e st ex cs call = (r, st') -> st_le st st'.
+
+Lemma eval_args_f_le : forall (ev : state -> expr -> res * state),
+  (forall st a r st', ev st a = (r, st') -> st_le st st') ->
+  forall l st x st', eval_args_f ev l st = (x, st') -> st_le st st'.
+Proof.
+  intros ev Hev. induction l as [|a t IH]; intros st x st' H.
+  - inversion H; apply st_le_refl.
+  - rewrite eval_args_f_cons in H.
+    destruct (eval_args_f ev t st) as [[o1 r1] s1] eqn:E1. apply IH in E1.
+    destruct o1.
+    + destruct (ev s1 a) as [r2 s2] eqn:E2. apply Hev in E2.
+      destruct r2; inversion H; subst; eapply st_le_trans; eauto.
+    + inversion H; subst; auto.
+Qed.
+
+Ltac chain :=
+  repeat match goal with
+  | H : st_le ?a ?b |- st_le ?a ?c => apply (st_le_trans a b c H); clear H
+  end;
+  first [ apply st_le_refl | apply st_le_set_cell | apply st_le_print
+        | apply st_le_new_arr | apply st_le_new_rec | apply st_le_alloc | assumption
+        | idtac ].
+
+Ltac grow_leaf IHe IHi IHh :=
+  match goal with
+  | H : fresh _ _ = (_, _) |- _ => apply st_le_fresh in H; destruct H as [H _]
+  | H : (_, _) = (_, _) |- _ => inversion H; subst; clear H
+  | H : eval _ _ _ _ _ = (_, _) |- _ => apply IHe in H
+  | H : eval_items _ _ _ _ _ _ = (_, _) |- _ => apply IHi in H
+  | H : handlers _ _ _ _ _ _ _ = (_, _) |- _ => apply IHh in H
+  | H : eval_args _ _ _ _ _ = (_, _) |- _ =>
+      apply (eval_args_f_le _ (fun st a r st' => IHe _ st a r st')) in H
+  end.
+
+Ltac grow_step :=
+  match goal with
+  | H : context[match ?X with _ => _ end] |- _ =>
+      lazymatch type of H with
+      | st_le _ _ => fail
+      | _ => destruct X eqn:?
+      end
+  end.
+
+Lemma grow_all : forall k, grow_eval k /\ grow_items k /\ grow_handlers k.
+Proof.
+  induction k as [|k [IHe [IHi IHh]]].
+  - repeat split; red; intros; rewrite ?eval_O, ?eval_items_O, ?handlers_O in *;
+      inversion H; apply st_le_refl.
+  - repeat split; red.
+    + intros e st x r st' H.
+      destruct x;
+        try (destruct (binop_cases op) as [->|[->|[Hop1 Hop2]]];
+             [| | rewrite (eval_EBin genv op) in * by assumption]);
+        autorewrite with evaleq in *;
+        unfold apply_fun, call_body, binop_result, index_result, field_result, new_arr, new_rec in *;
+        repeat grow_step; repeat (grow_leaf IHe IHi IHh); chain.
+      all: try (eapply st_le_trans; [| eapply st_le_trans; [|eassumption]]);
+           try apply (st_le_new_arr _ _); try apply (st_le_new_rec _ _);
+           try apply st_le_print; try assumption.
+    + intros e st l last r st' H.
+      destruct l as [|[x a|x a|fd|a] t];
+        autorewrite with evaleq in *; unfold alloc in *;
+        repeat grow_step; repeat (grow_leaf IHe IHi IHh); chain.
+      eapply st_le_trans; [|eassumption].
+      eapply st_le_trans; [apply (st_le_alloc st (CInt 0))|apply st_le_set_cell].
+    + intros e st ex cs call r st' H.
+      destruct cs as [|[ex' body] t];
+        autorewrite with evaleq in *;
+        repeat grow_step; repeat (grow_leaf IHe IHi IHh); chain.
+Qed.
+End Grow.
